@@ -60,7 +60,13 @@ impl GlideProcessor {
 
         self.cached_t = t;
 
-        let f0 = (1.0_f32 / t).max(self.min_fc).min(self.max_fc);
+        // a time of zero means no glide at all, don't divide by it: 1/-0.0 is negative infinity and would end up
+        // as the slowest setting instead of the fastest
+        let f0 = if 0.0_f32 < t {
+            (1.0_f32 / t).max(self.min_fc).min(self.max_fc)
+        } else {
+            self.max_fc
+        };
         self.lpf.update_coefficients(coeffs(self.fs, f0.hz()))
     }
 
